@@ -9,7 +9,10 @@
      - asn1p_expr_compare never looks at the subtype constraint of an expression ([pe_constr]) nor at
        its own actual parameter list ([pe_pspecs], the rhs_pspecs of a nested reference  Q {BOOLEAN});
      - asn1p_value_compare hands a value set to asn1p_constraint_compare, which is
-       assert(!"Constraint comparison is not implemented")  — [CAbort].
+       assert(!"Constraint comparison is not implemented")  — [CAbort];
+     - the table keeps a CLONE of the actual parameter list (asn1p_expr_clone), and asn1p_value_clone turns the
+       value NULL into "no value" (ATV_NULL -> calloc'ed ATV_NOVALUE): a list carrying the value NULL never
+       compares equal to its own stored copy ([vclone]).
    Not modelled: ATV_TYPE / ATV_REAL values (no generated case carries them; REAL compares doubles with ==),
    the marker flags beyond an opaque number.  No proofs in this file. *)
 From Coq Require Import List Bool ZArith.
@@ -111,6 +114,18 @@ Fixpoint ecmp (a b : pexpr) : cres :=
    members are the actual parameters) *)
 Definition compare_specializations (a b : pexpr) : cres := ecmp a b.
 
+(* asn1p_value_clone / asn1p_expr_clone: the identity except on the value NULL *)
+Fixpoint vclone (v : pvalue) : pvalue :=
+  match v with
+  | PVNull => PVNoValue
+  | PVChoiceId i x => PVChoiceId i (vclone x)
+  | _ => v
+  end.
+Fixpoint eclone (e : pexpr) : pexpr :=
+  match e with
+  | PE m t i r v g f d u c ps ms => PE m t i r (option_map vclone v) g f (option_map vclone d) u c (map eclone ps) (map eclone ms)
+  end.
+
 Inductive lres := LFound (k : nat) | LNew | LAbort.
 
 (* the loop of asn1f_parameterization_fork over expr->specializations.pspec[0..count) *)
@@ -128,7 +143,7 @@ Fixpoint find_spec (tbl : list pexpr) (a : pexpr) (k : nat) : lres :=
 Definition fork (tbl : list pexpr) (a : pexpr) : option (list pexpr * nat) :=
   match find_spec tbl a 0 with
   | LFound k => Some (tbl, k)
-  | LNew => Some (tbl ++ [a], length tbl)
+  | LNew => Some (tbl ++ [eclone a], length tbl)
   | LAbort => None
   end.
 
@@ -158,6 +173,16 @@ Definition onovs (v : option pvalue) : bool := match v with None => true | Some 
 Fixpoint novs (e : pexpr) : bool :=
   match e with
   | PE _ _ _ _ v _ _ d _ _ _ ms => onovs v && onovs d && forallb novs ms
+  end.
+
+(* neither a value set nor the value NULL in a compared position: the comparison is total and the stored clone is
+   indistinguishable from the original *)
+Fixpoint vstable (v : pvalue) : bool :=
+  match v with PVValueSet => false | PVNull => false | PVChoiceId _ x => vstable x | _ => true end.
+Definition ostable (v : option pvalue) : bool := match v with None => true | Some x => vstable x end.
+Fixpoint stable (e : pexpr) : bool :=
+  match e with
+  | PE _ _ _ _ v _ _ d _ _ _ ms => ostable v && ostable d && forallb stable ms
   end.
 
 (* the wrapper the parser builds for  { a1, ..., an } *)
